@@ -784,8 +784,13 @@ static PyObject *Dtool_MappingWrapper_items(PyObject *self, PyObject *) {
  */
 static int Dtool_MutableMappingWrapper_setitem(PyObject *self, PyObject *key, PyObject *value) {
   Dtool_MappingWrapper *wrap = (Dtool_MappingWrapper *)self;
-  nassertr(wrap->_setitem_func != nullptr, -1);
-  return wrap->_setitem_func(wrap->_base._self, key, value);
+  nassertr(wrap, -1);
+  if (wrap->_setitem_func != nullptr) {
+    return wrap->_setitem_func(wrap->_base._self, key, value);
+  } else {
+    Dtool_Raise_TypeError("property does not support item assignment");
+    return -1;
+  }
 }
 
 /**
